@@ -50,7 +50,15 @@ def run_case(rng, tier, case):
         I = np.sort(rng.permutation(T)[:max(1, T // 3)]); steps = I
     else:
         d = pts[k1 - 1]
-        if rng.random() < 0.3:
+        edge = rng.random()
+        if edge < 0.2:
+            # the date on the last grid point, on the grid end or beyond it: everything is pinned
+            d = gen.pick(rng, [pts[T - 1], pts[T - 1] + (pts[T - 1] - pts[T - 2]) if T >= 2 else pts[T - 1], pts[T - 1] + pd.Timedelta(days=3)])
+            case.feature('date_at_or_after_last_point')
+        elif edge < 0.27:
+            d = pts[0] - pd.Timedelta(minutes=30)  # before the first point: nothing is pinned
+            case.feature('date_before_first_point')
+        elif edge < 0.5:
             d = d + pd.Timedelta(minutes=10)       # a date between two grid points
         if d.tzinfo is not None and rng.random() < 0.5:
             d = d.tz_convert(gen.pick(rng, ['UTC', 'Asia/Kolkata', 'America/New_York']))     # the same instant expressed in another zone
